@@ -160,6 +160,27 @@ def batch_files(max_n, lo, hi, seed):
     return res
 
 
+FRAG_OPS = ['AND', 'OR', 'XOR', 'IMPLIES', 'EQUIVALENCE', 'REQUIRES', 'EXCLUDES']
+
+
+def cycle_tree(tree):
+    tree = totuple(tree)
+    m = R.build((((), ()),), [(1, 2)], ctcs=[R.ctc('c0', tree)])
+    try:
+        m2 = JSONReader.parse_json(to_json(m))
+        if not rt.ctcs_equivalent(m, m2, same_names=True):
+            return ['constraint %r is read back as %r: not the same named, logically equivalent constraint' % (tree, [R.node_tree(c.ast.root) for c in m2.ctcs])]
+        if to_json(m2) != to_json(m):
+            return ['constraint %r: second write differs' % (tree,)]
+    except Exception as exc:
+        return ['round trip of constraint %r raises %s: %s' % (tree, type(exc).__name__, exc)]
+    return []
+
+
+def batch_trees(lo, hi, full):
+    return rt.ctc_tree_batch(__name__, 'cycle_tree', FRAG_OPS, lo, hi, full, 'constraint-roundtrip')
+
+
 def conditions(tier, seed):
     conds = []
     N = 4 if tier == 'quick' else 5
@@ -203,7 +224,12 @@ def batches(tier, seed):
     N = 4 if tier == 'quick' else 5
     total = len(R.shapes(N))
     step = total // 12 + 1
-    return [('batch_files', [N, lo, lo + step, seed + lo]) for lo in range(0, total, step)]
+    b = [('batch_files', [N, lo, lo + step, seed + lo]) for lo in range(0, total, step)]
+    full = tier != 'quick'
+    nt = len(rt.ctc_family(FRAG_OPS, ['F0', 'F1', 'F2'], full))
+    st = nt // 12 + 1
+    b += [('batch_trees', [lo, lo + st, full]) for lo in range(0, nt, st)]
+    return b
 
 
 def info(tier):
